@@ -304,7 +304,8 @@ func trunc(s string, n int) string {
 
 func (ex *Exec) stringAxioms() []*Term {
 	var out []*Term
-	out = append(out, Eq(StrLen(EmptyStr), BVLit(0, 64)))
+	UF("str_len", BV(64), EmptyStr)
+	out = append(out, Eq(App("str_len", BV(64), EmptyStr), BVLit(0, 64)))
 	var keys []string
 	for k := range strGlobal {
 		keys = append(keys, k)
@@ -315,10 +316,12 @@ func (ex *Exec) stringAxioms() []*Term {
 	for _, k := range keys {
 		t := strGlobal[k]
 		all = append(all, t)
-		out = append(out, Eq(StrLen(t), BVLit(uint64(len(k)), 64)))
+		UF("str_len", BV(64), t)
+		out = append(out, Eq(App("str_len", BV(64), t), BVLit(uint64(len(k)), 64)))
 		if len(k) <= 80 {
 			for i := 0; i < len(k); i++ {
-				out = append(out, Eq(StrAt(t, BVLit(uint64(i), 64)), BVLit(uint64(k[i]), 8)))
+				UF("str_at", BV(8), t, BVLit(0, 64))
+				out = append(out, Eq(App("str_at", BV(8), t, BVLit(uint64(i), 64)), BVLit(uint64(k[i]), 8)))
 			}
 		}
 	}
@@ -640,7 +643,7 @@ func (fr *Frame) enterLoop(h *ssa.BasicBlock, li *loopInfoT, cur *State) *State 
 		if w.all {
 			nv := Fresh(name+"$loop", srt)
 			hst.set(name, nv)
-			if ex.hasFrame {
+			if ex.hasFrame || (strings.HasPrefix(name, "G$") && ex.frameProps != nil) {
 				lc.framed = append(lc.framed, name)
 				ex.assume(Implies(reachB, ex.frameFormula(name, nv)))
 			}
